@@ -62,6 +62,7 @@ pub fn run(rep: &mut Report, tier: &str, seed: u64) {
         };
         for ti in 0..trees_per {
             let source = gen_source(&mut r, false, ti == 1 && pi % 5 == 0);
+            let source = if ti == 0 { crate::props::common::wide_source_for(&loaded.program).unwrap_or(source) } else { source };
             let (info, mi) = export(&loaded.file, &source);
             drv.ask(&sexp::tagged("set-tree", vec![info.to_sexp(&source.src)]));
             rep.count_n("regex-oracle-questions", table.rx_asked + table.rp_asked);
@@ -69,6 +70,16 @@ pub fn run(rep: &mut Report, tier: &str, seed: u64) {
             table.arm_sets = crate::astx::scan_arm_sets(&loaded.file);
             let cfg = RunCfg { lazy: false, globals: supply_globals(&mut r, &loaded.program), outer_globals: vec![], debug: None, cancel_at: None };
             let ir = run_impl(&loaded.file, &source.tree, &source.src, &info, &cfg);
+            if ir.polls > crate::props::runner::MODEL_POLL_LIMIT {
+                // the executable model is quadratic in the size of the run (as in `Runner::check_mode`)
+                rep.count("model-comparison-skipped:run-too-large");
+                let key = format!("{}\u{0}{}", loaded.program.text, source.src);
+                rep.case(&key, false);
+                if outcome_class(&ir.outcome) == "panic" {
+                    rep.fail("impl-panic", "C01 strict execution panics (model not run: large case)", true, json!({"tsg": loaded.program.text, "source": source.src}));
+                }
+                continue;
+            }
             let model = run_model(&mut drv, &mut table, &mi, &cfg);
             let key = format!("{}\u{0}{}", loaded.program.text, source.src);
             rep.case(&key, mi.n_matches > 0);
@@ -82,6 +93,7 @@ pub fn run(rep: &mut Report, tier: &str, seed: u64) {
                 "globals": format!("{:?}", cfg.globals.iter().map(|g| &g.0).collect::<Vec<_>>()),
                 "implementation": impl_as_result(&ir).pretty(), "model": model.pretty(), "detail": extra});
             match result_parts(&model) {
+                None if model.as_atom() == Some("model-too-slow") => rep.count("model-comparison-given-up:time-budget"),
                 None => rep.fail("disagreement", &format!("C01 model did not return a result: {}", model.to_text().chars().take(60).collect::<String>()), false, replay(json!(null))),
                 Some((mo, mg, _mp)) => {
                     let mclass = outcome_class(mo);
